@@ -4,16 +4,59 @@ release); tie: K2 port-level replay with a window-subscribing logging subscriber
 oracle: harness/win_table.py (expected content of every window/buffer recomputed from the rule)."""
 import win_table
 
-NAMES = ["group_by", "group_by_until", "partition"]
+NAMES = ["group_by", "group_by_until", "partition", "partition_indexed"]
+
+
+def run_self_duration(case):
+    """group_by_until whose duration is derived from the group ITSELF -> (groups [key, elements, terminal], outer)"""
+    from reactivex import operators as ops
+    from reactivex.subject import Subject
+    mode, m, xs = case["mode"], case["m"], [tuple(x) for x in case["xs"]]
+    if mode == "skip":
+        dur = lambda g: g.pipe(ops.skip(m))
+    else:
+        dur = lambda g: g.pipe(ops.filter(lambda kv: kv[1] == "end"))
+    groups = []            # [key, [elements], terminal]
+    src = Subject()
+    outer_term = []
+
+    def on_group(g):
+        rec = [g.key, [], None]
+        groups.append(rec)
+        g.subscribe(lambda kv: rec[1].append(kv), lambda e: rec.__setitem__(2, "E"),
+                    lambda: rec.__setitem__(2, "C"))
+    src.pipe(ops.group_by_until(lambda kv: kv[0], None, dur)).subscribe(
+        on_group, lambda e: outer_term.append("E"), lambda: outer_term.append("C"))
+    for kv in xs:
+        src.on_next(kv)
+    src.on_completed()
+    return groups, outer_term
+
+
+def ref_self_duration(case):
+    mode, m, xs = case["mode"], case["m"], [tuple(x) for x in case["xs"]]
+    closes = (lambda count, v: count == m + 1) if mode == "skip" else (lambda count, v: v == "end")
+    exp, open_ = [], {}
+    for kv in xs:
+        k = kv[0]
+        if k not in open_:
+            rec = [k, [], None]
+            exp.append(rec)
+            open_[k] = rec
+        rec = open_[k]
+        rec[1].append(kv)
+        if closes(len(rec[1]), kv[1]):
+            rec[2] = "C"
+            del open_[k]
+    for rec in open_.values():
+        rec[2] = "C"
+    return exp, ["C"]
 
 
 def self_duration_scenarios(chk):
     """oracle-only: group_by_until whose duration is derived from the group ITSELF (g.skip(m), or a sentinel
     element), so that a group's own element closes it.  Every element -- the closing one included -- must reach
     exactly the group of its key, in arrival order; the next element of that key opens a new group."""
-    import reactivex as rx
-    from reactivex import operators as ops
-    from reactivex.subject import Subject
     n = 80 if chk.tier == "quick" else 1000
     nontrivial = set()
     for _ in range(n):
@@ -22,45 +65,14 @@ def self_duration_scenarios(chk):
         nk = chk.rng.choice([1, 2, 3])
         xs = [(chk.rng.randrange(nk), chk.rng.choice([0, None, 1, 2, "end", "end"])) for _ in
               range(chk.rng.choice([2, 4, 6, 9]))]
-        if mode == "skip":
-            dur = lambda g: g.pipe(ops.skip(m))
-            closes = lambda count, v: count == m + 1
-        else:
-            dur = lambda g: g.pipe(ops.filter(lambda kv: kv[1] == "end"))
-            closes = lambda count, v: v == "end"
-        groups = []            # [key, [elements], terminal]
-        src = Subject()
-        outer_term = []
-
-        def on_group(g):
-            rec = [g.key, [], None]
-            groups.append(rec)
-            g.subscribe(lambda kv: rec[1].append(kv), lambda e: rec.__setitem__(2, "E"),
-                        lambda: rec.__setitem__(2, "C"))
-        src.pipe(ops.group_by_until(lambda kv: kv[0], None, dur)).subscribe(
-            on_group, lambda e: outer_term.append("E"), lambda: outer_term.append("C"))
-        for kv in xs:
-            src.on_next(kv)
-        src.on_completed()
+        case = {"mode": mode, "m": m, "xs": [list(x) for x in xs]}
+        groups, outer_term = run_self_duration(case)
         chk.cov["evaluations"] += 1
-        # reference
-        exp, open_ = [], {}
-        for kv in xs:
-            k = kv[0]
-            if k not in open_:
-                rec = [k, [], None]
-                exp.append(rec)
-                open_[k] = rec
-            rec = open_[k]
-            rec[1].append(kv)
-            if closes(len(rec[1]), kv[1]):
-                rec[2] = "C"
-                del open_[k]
-        for rec in open_.values():
-            rec[2] = "C"
-        if groups != exp or outer_term != ["C"]:
+        exp, exp_outer = ref_self_duration(case)
+        if groups != exp or outer_term != exp_outer:
             chk.violation(f"C19|self-duration|{mode}|m={m}|{xs}"[:120],
                           {"operator": f"group_by_until(key, None, duration derived from the group: {mode}, m={m})",
+                           "self_duration_case": case,
                            "source (key, value)": xs, "groups got [key, elements, terminal]": groups,
                            "expected": exp, "outer terminal": outer_term,
                            "oracle": "every element reaches exactly the group of its key, in arrival order"},
@@ -70,12 +82,239 @@ def self_duration_scenarios(chk):
     return nontrivial
 
 
+# ---- subject_mapper returning ReplaySubject (the documented use) / a subject with its own truthiness ----------
+
+FALSY_SIG = "C19|custom-subject-truthiness|a live group's subject that is falsy is taken for a missing one"
+
+
+def run_replay_subject(case):
+    """group_by(key, None, factory) / group_by_until(key, None, hand-held durations, factory); factory =
+    lambda: ReplaySubject() ('replay') or a Subject subclass whose truth value is "has observers" ('len', as
+    a user-defined subject with __len__ would be).  The subscriber subscribes to group g immediately / before
+    the `when`-th script step after the hand / after the whole script ('end') / never.
+    -> {g: [key, [events seen]]}, factory calls, outer"""
+    from reactivex import operators as ops
+    from reactivex.subject import Subject, ReplaySubject
+
+    class LenSubject(Subject):
+        def __len__(self):
+            return len(self.observers)
+    src = Subject()
+    durs = []
+    made = []
+    handed = []           # group observables in hand order
+    seen = {}
+    outer = []
+    pending = []          # (due step, g)
+    pos = [0]
+
+    def factory():
+        s = ReplaySubject() if case.get("subject", "replay") == "replay" else LenSubject()
+        made.append(s)
+        return s
+
+    def dur(_g):
+        d = Subject()
+        durs.append(d)
+        return d
+
+    def subscribe_group(g):
+        rec = seen.setdefault(g, [handed[g].key, []])
+        handed[g].subscribe(lambda v: rec[1].append(["N", list(v)]), lambda e: rec[1].append(["E"]),
+                            lambda: rec[1].append(["C"]))
+
+    def on_group(go):
+        g = len(handed)
+        handed.append(go)
+        when = case["subs"][g] if g < len(case["subs"]) else 0
+        if when == 0:
+            subscribe_group(g)
+        elif when == "end":
+            pending.append((10**9, g))
+        elif when is not None:
+            pending.append((pos[0] + when, g))
+    key = lambda kv: kv[0]
+    op = ops.group_by_until(key, None, dur, factory) if case["until"] else ops.group_by(key, None, factory)
+    src.pipe(op).subscribe(on_group, lambda e: outer.append("E"), lambda: outer.append("C"))
+    for j, step in enumerate(case["script"]):
+        pos[0] = j
+        for (due, g) in [p for p in pending if p[0] <= j]:
+            pending.remove((due, g))
+            subscribe_group(g)
+        if step[0] == "N":
+            src.on_next((step[1], step[2]))
+        elif step[0] == "expire":
+            if step[1] < len(durs):
+                durs[step[1]].on_next(0)
+        elif step[1] == "C":
+            src.on_completed()
+        else:
+            src.on_error(RuntimeError("boom"))
+    for (due, g) in pending:
+        subscribe_group(g)
+    return {g: rec for g, rec in seen.items()}, len(made), outer
+
+
+def ref_replay_subject(case):
+    """reference from the statement: a group is made the first time its key is seen (or again after its group
+    expired); its content is every element of its key that arrived while it was live, in arrival order, then its
+    end (expiry: completion; the source's terminal otherwise).  A ReplaySubject group shows that whole content to
+    a subscriber whenever it subscribes; a plain subject shows what comes after the subscription (its terminal
+    alone if it ended before)."""
+    groups, open_, outer = [], {}, []         # groups[g] = [key, [(script step, event)], step of the hand]
+    for j, step in enumerate(case["script"]):
+        if outer:
+            break
+        if step[0] == "N":
+            k = step[1]
+            if k not in open_:
+                open_[k] = len(groups)
+                groups.append([k, [], j])
+            groups[open_[k]][1].append((j, ["N", [step[1], step[2]]]))
+        elif step[0] == "expire":
+            g = step[1]
+            if case["until"] and g < len(groups) and open_.get(groups[g][0]) == g:
+                groups[g][1].append((j, ["C"]))
+                del open_[groups[g][0]]
+        else:
+            for g in open_.values():
+                groups[g][1].append((j, [step[1]]))
+            open_.clear()
+            outer.append(step[1])
+    want = {}
+    for g, (k, evs, hand) in enumerate(groups):
+        when = case["subs"][g] if g < len(case["subs"]) else 0
+        if when is None:
+            continue
+        if case.get("subject", "replay") == "replay" or when == 0:
+            want[g] = [k, [e for _, e in evs]]
+            continue
+        at = 10**9 if when == "end" else hand + when       # subscribed before script step `at` is played
+        term = [(j, e) for (j, e) in evs if e[0] != "N"]
+        if term and term[0][0] < at:
+            want[g] = [k, [term[0][1]]]
+        else:
+            want[g] = [k, [e for (j, e) in evs if j >= at]]
+    return want, len(groups), outer
+
+
+def gen_replay_subject(rng, subject="replay"):
+    nk = rng.choice([1, 2, 3])
+    script = []
+    for _ in range(rng.choice([3, 5, 8, 10])):
+        r = rng.random()
+        if r < 0.75:
+            script.append(["N", rng.choice([0, None, "", 1, 2][:nk + 1]), rng.choice([0, None, 1, 2, 3])])
+        else:
+            script.append(["expire", rng.randrange(4)])
+    r = rng.random()
+    if r < 0.6:
+        script.append(["term", "C"])
+    elif r < 0.8:
+        script.append(["term", "E"])
+    subs = [rng.choice([0, 1, 2, 3, 5, "end", "end", None]) for _ in range(8)]
+    return {"until": rng.random() < 0.6, "script": script, "subs": subs, "subject": subject}
+
+
+def check_replay_subject(case):
+    exp = ref_replay_subject(case)
+    try:
+        got = run_replay_subject(case)
+    except Exception as e:        # an exception escaping into the code that drives the source / a duration
+        return False, ({}, f"exception escaped: {e!r}", []), exp
+    g_seen = {str(g): rec for g, rec in got[0].items()}
+    e_seen = {str(g): rec for g, rec in exp[0].items()}
+    ok = g_seen == e_seen and got[1] == exp[1] and got[2] == exp[2]
+    return ok, got, exp
+
+
+def replay_subject_scenarios(chk):
+    n = 150 if chk.tier == "quick" else 3000
+    nontrivial = set()
+    late = 0
+    for c in range(n + n // 3):
+        kind = "replay" if c < n else "len"
+        case = gen_replay_subject(chk.rng, kind)
+        ok, got, exp = check_replay_subject(case)
+        chk.cov["evaluations"] += 1
+        if not ok and kind == "len":
+            chk.violation(FALSY_SIG,
+                          {"replay_subject_case": case,
+                           "got ({group: [key, events seen]}, factory calls, outer terminal)": repr(got),
+                           "expected": repr(exp),
+                           "what": "subject_mapper returning a Subject subclass whose truth value is 'has observers' "
+                                   "(a user-defined __len__): while nobody is subscribed to a live group, the next "
+                                   "element of its key makes ANOTHER group (`if not writer`), and expiry skips it "
+                                   "(`if writers[key]`) -- a new group must be made only the first time a key is seen "
+                                   "or after its group expired"},
+                          size=len(case["script"]))
+        elif not ok:
+            chk.violation(f"C19|replay-subject-groups|until={case['until']}|{case['script']}|{case['subs'][:3]}"[:160],
+                          {"replay_subject_case": case,
+                           "got ({group: [key, events seen]}, factory calls, outer terminal)": repr(got),
+                           "expected": repr(exp),
+                           "what": "subject_mapper=lambda: ReplaySubject(): one NEW subject per group; a group "
+                                   "subscriber -- however late -- sees every element of its key that arrived "
+                                   "while the group was live, in arrival order, then the group's end"},
+                          size=len(case["script"]))
+        else:
+            n_late = sum(1 for g, rec in exp[0].items() if case["subs"][g] not in (0, None) and len(rec[1]) >= 2)
+            late += n_late if kind == "replay" else 0
+            if (n_late or kind == "len") and exp[1] >= 2:
+                nontrivial.add(repr(case))
+            chk.cov["custom_truthiness_subject_cases"] = chk.cov.get("custom_truthiness_subject_cases", 0) + (kind == "len")
+    chk.cov["replay_subject_late_group_subscriptions"] = late
+    return nontrivial
+
+
+def sync_duration_coverage(chk):
+    """COVERAGE ONLY (never a violation): group_by_until whose duration observable fires INSIDE its own subscribe
+    call (empty() / of()).  expire() then runs before writer.on_next(element): the group is handed, completed, and
+    the element that created it reaches nobody.  The statement is read for LIVE groups: an element whose group
+    expired before it was delivered is not judged.  Recorded: how many such elements were lost."""
+    import reactivex as rx
+    from reactivex import operators as ops
+    from reactivex.subject import Subject
+    n = 30 if chk.tier == "quick" else 300
+    lost = handed = 0
+    for _ in range(n):
+        kinds = [chk.rng.choice(["empty", "of", "hot"]) for _ in range(6)]
+        calls = [0]
+
+        def dur(_g):
+            k = kinds[calls[0] % len(kinds)]
+            calls[0] += 1
+            return rx.empty() if k == "empty" else (rx.of(0) if k == "of" else Subject())
+        got = []
+
+        def on_group(g, got=got):
+            rec = []
+            got.append(rec)
+            g.subscribe(rec.append, lambda e: None, lambda: None)
+        src = Subject()
+        src.pipe(ops.group_by_until(lambda x: x % 2, None, dur)).subscribe(on_group, lambda e: None, lambda: None)
+        xs = [chk.rng.randrange(6) for _ in range(chk.rng.choice([2, 4, 6]))]
+        for x in xs:
+            src.on_next(x)
+        src.on_completed()
+        chk.cov["evaluations"] += 1
+        handed += len(got)
+        lost += len(xs) - sum(len(r) for r in got)
+    chk.cov["sync_duration_cases_not_judged"] = n
+    chk.cov["sync_duration_groups_handed"] = handed
+    chk.cov["sync_duration_elements_reaching_no_group"] = lost
+
+
 def run(chk):
     chk.build_and_prove()
     win_table.run_ops(chk, "C19", NAMES, ncase=(90 if chk.tier == "quick" else 1500))
     nt = self_duration_scenarios(chk)
     chk.cov["distinct_nontrivial"] = chk.cov.get("distinct_nontrivial", 0) + len(nt)
     chk.cov["self_duration_scenarios_nontrivial"] = len(nt)
+    sync_duration_coverage(chk)
+    nt = replay_subject_scenarios(chk)
+    chk.cov["distinct_nontrivial"] += len(nt)
+    chk.cov["replay_subject_scenarios_nontrivial"] = len(nt)
     chk.cov["rule"] = ("per operator: seeded key tables (few keys / many keys / falsy keys None 0 False '' () 0.0; 5% "
                        "raising), element mappers, duration mappers (12% raising) x seeded timelines (falsy elements, "
                        "duration observables firing at arbitrary times incl. the same instant as elements, errors while "
@@ -83,18 +322,49 @@ def run(chk):
                        "policies (immediately / after a delay / never / dispose after n elements / after d ms); partition: "
                        "seeded predicate tables x subscribe/leave/re-subscribe schedules of the two outputs; non-trivial = "
                        "distinct (policy, machine, delivered input sequence) with >= 2 group/output notifications and the "
-                       "oracle satisfied")
+                       "oracle satisfied; subject_mapper in 45% of the group cases (plain Subject factory / factory of a "
+                       "Subject subclass / factory raising at seeded invocations -- machine x_group_by_until_sm); "
+                       "partition_indexed with predicate_indexed(x, i) = table[(id(x)+i) mod K] and non-bool verdicts "
+                       "(model Ops/GroupsIndexed.v); in 35% of ALL cases the measured subscription is the SECOND one of "
+                       "the same observable object(s) (an abandoned warm-up subscription first); oracle-only: "
+                       "self-expiring groups (duration derived from the group); subject_mapper=lambda: ReplaySubject() "
+                       "with group subscribers joining late / after the end (each sees the whole content of its group); "
+                       "subject_mapper returning a subject with its own truth value (falsy while it has no observers); "
+                       "coverage only, not judged: durations firing inside their own subscribe call")
     chk.cov["operators_modelled"] = NAMES
     return chk.finish(trusted_extra=[
         "window-aware K2 driver harness/k2w.py (hot sources, proxy scheduler, boundary log, window subscription "
         "policies turned into boundary inputs ISubWin/IUnsubWin; canonical per-instant ordering of "
-        "subscribe/unsubscribe/timer events)",
+        "subscribe/unsubscribe/timer events; warm-up = an earlier abandoned subscription whose traffic is not logged)",
         "runner assumption (Ops/MultiWin.v): the disposable under the operator's RefCountDisposable holds every "
-        "subscription and timer it opened -- checked here by comparing unsubscribe/cancel instants"])
+        "subscription and timer it opened -- checked here by comparing unsubscribe/cancel instants",
+        "x_group_by_until_sm indexes the subject factory by the duration-mapper call count (a raising factory ends "
+        "everything, so the two counts agree while input is still delivered) -- the harness counts both "
+        "independently and the correspondence would show a divergence"],
+        assumptions=[
+        "partition_indexed: for a subscriber that joined the shared connection late the oracle accepts the verdict at "
+        "the subscriber's own index OR at the element's position in the connected sequence (the statement does not "
+        "say which index is meant); the model and the correspondence use the subscriber's own index, as the code does",
+        "group_by_until durations that fire inside their own subscribe call are counted, not judged (the statement "
+        "is read for live groups)"])
 
 
 def replay(chk, path):
+    import json
+    d = json.load(open(path))
+    for key, fn in (("replay_subject_case", lambda c: check_replay_subject(c)),
+                    ("self_duration_case", lambda c: (lambda g, e: (g == e, g, e))(run_self_duration(c),
+                                                                                   ref_self_duration(c)))):
+        if key in d:
+            ok, got, exp = fn(d[key])
+            print(json.dumps({"case": d[key], "got": repr(got), "expected": repr(exp)}, default=str))
+            if not ok:
+                print(f"VIOLATION property=C19 replay={path}")
+                return 1
+            return 0
     v, text = win_table.replay_case(path)
     print(text)
     print(f"[{chk.pid}] replay: {'STILL VIOLATED' if v else 'no longer violated on the current tree'}")
+    if v:
+        print(f"VIOLATION property={chk.pid} replay={path}")
     return 1 if v else 0
